@@ -88,7 +88,7 @@ def skeleton_check() -> list[str]:
     if not (
         len(b) == 3
         and isinstance(b[0], ast.If)
-        and _unparse(b[0].test) == "token_type == TokenType.GRAMMAR_SENTINEL and pos != 0"
+        and _unparse(b[0].test) in ("token_type == TokenType.GRAMMAR_SENTINEL and pos != 0", "token_type == TokenType.GRAMMAR_SENTINEL and pos != 0 and content[:pos].strip('\\n')")
         and len(b[0].body) == 1
         and isinstance(b[0].body[0], ast.Continue)
         and isinstance(b[1], ast.Assign)
@@ -274,7 +274,7 @@ def model_tokenize(text: str, lenient: bool = False) -> list[tuple[str, int]] | 
             pos += 1
             continue
         prev_ch = text[pos - 1] if pos > 0 else None
-        sm = step_model(prev_ch, at_pos0=(pos == 0))
+        sm = step_model(prev_ch, at_pos0=(pos == 0 or not text[:pos].strip("\n")) if _SENTINEL_AFTER_NEWLINES() else (pos == 0))
         rest = al.encode(text[pos:])
         fired = None
         for i, name in enumerate(sm.names):
@@ -339,6 +339,13 @@ def model_tokenize(text: str, lenient: bool = False) -> list[tuple[str, int]] | 
         return "ERR"
     out.append(("EOF", pos))
     return out
+
+
+@lru_cache(maxsize=None)
+def _SENTINEL_AFTER_NEWLINES() -> bool:
+    """which of the two accepted sentinel guards the working tree has (read from the AST)"""
+    fn = extract.find_def(LEXER, "tokenize")
+    return "content[:pos].strip('\\n')" in ast.unparse(fn)
 
 
 _SCAN: dict[bool, A.DFA] = {}
